@@ -3,7 +3,9 @@ package exec
 import (
 	"fmt"
 	"go/types"
+	"path/filepath"
 	"sort"
+	"strings"
 
 	"golang.org/x/tools/go/ssa"
 )
@@ -17,7 +19,170 @@ import (
 // lets the environment act (the earliest pending timer fires, a cancellable context ends).  No ready
 // goroutine and no environment action while the main goroutine is blocked is a deadlock outcome.
 
-type access struct{}
+// ---- happens-before data-race detection (vector clocks) ----
+//
+// Every goroutine carries a vector clock; release/acquire pairs (go statement, mutex unlock->lock, channel
+// send/close->receive, WaitGroup Done->Wait, atomic store->load, timer creation->firing) join clocks.  Each
+// memory cell / map remembers its last write and the reads since; an access by another goroutine that is not
+// ordered after them is a data race - what the Go race detector reports on a schedule that performs both
+// accesses, whatever their timing.  The edges are over-approximated where that is simpler (a channel or lock
+// carries the join of everything released on it), which can only hide races, never invent one.
+// Accesses made by harness code (zz_verif_* files) are not reported: harnesses observe results after a
+// pause, as a test would.
+
+type vclock map[int]int
+
+func (v vclock) join(o vclock) {
+	for k, c := range o {
+		if c > v[k] {
+			v[k] = c
+		}
+	}
+}
+
+func (v vclock) clone() vclock {
+	n := make(vclock, len(v)+1)
+	for k, c := range v {
+		n[k] = c
+	}
+	return n
+}
+
+type accessRec struct {
+	gid, clk int
+	pos      string
+	harness  bool
+}
+
+type access struct {
+	w     accessRec
+	hasW  bool
+	reads []accessRec
+}
+
+// RaceReport: two unordered accesses, at least one a write, both in code under test.
+type RaceReport struct {
+	Kind       string // write-write, write-read, read-write
+	First, Second string
+}
+
+func (ex *Exec) curRec(fr *frame) (accessRec, *goroutine) {
+	g := ex.sched.cur
+	r := accessRec{gid: g.id, clk: g.vc[g.id]}
+	if fr != nil && fr.fn != nil {
+		r.pos = fr.fn.String() + "@" + fr.pos()
+		r.harness = ex.isHarnessFn(fr.fn)
+	} else {
+		r.harness = true
+	}
+	return r, g
+}
+
+func (ex *Exec) isHarnessFn(fn *ssa.Function) bool {
+	if ex.harnessFn == nil {
+		ex.harnessFn = map[*ssa.Function]bool{}
+	}
+	if h, ok := ex.harnessFn[fn]; ok {
+		return h
+	}
+	root := fn
+	for root.Parent() != nil {
+		root = root.Parent()
+	}
+	h := false
+	if root.Pkg != nil && strings.Contains(root.Pkg.Pkg.Path(), "/zzverif/") {
+		h = true
+	} else if root.Prog != nil && root.Pos().IsValid() {
+		h = strings.HasPrefix(filepath.Base(root.Prog.Fset.Position(root.Pos()).Filename), "zz_verif")
+	} else if root.Synthetic != "" {
+		h = false
+	}
+	ex.harnessFn[fn] = h
+	return h
+}
+
+func (ex *Exec) unordered(prev accessRec, g *goroutine) bool {
+	return prev.gid != g.id && prev.clk > g.vc[prev.gid]
+}
+
+func (ex *Exec) reportRace(kind string, prev, cur accessRec) {
+	if prev.harness || cur.harness {
+		return
+	}
+	for _, r := range ex.races {
+		if r.First == prev.pos && r.Second == cur.pos {
+			return
+		}
+	}
+	ex.races = append(ex.races, RaceReport{Kind: kind, First: prev.pos, Second: cur.pos})
+	ex.note("race-detected")
+}
+
+func (ex *Exec) raceRead(a **access, fr *frame) {
+	s := ex.sched
+	if s == nil || len(s.gs) < 2 {
+		return
+	}
+	if *a == nil {
+		*a = &access{}
+	}
+	ac := *a
+	cur, g := ex.curRec(fr)
+	if ac.hasW && ex.unordered(ac.w, g) {
+		ex.reportRace("write-read", ac.w, cur)
+	}
+	for i := range ac.reads {
+		if ac.reads[i].gid == g.id {
+			ac.reads[i] = cur
+			return
+		}
+	}
+	ac.reads = append(ac.reads, cur)
+}
+
+func (ex *Exec) raceWrite(a **access, fr *frame) {
+	s := ex.sched
+	if s == nil || len(s.gs) < 2 {
+		return
+	}
+	if *a == nil {
+		*a = &access{}
+	}
+	ac := *a
+	cur, g := ex.curRec(fr)
+	if ac.hasW && ex.unordered(ac.w, g) {
+		ex.reportRace("write-write", ac.w, cur)
+	}
+	for _, r := range ac.reads {
+		if ex.unordered(r, g) {
+			ex.reportRace("read-write", r, cur)
+		}
+	}
+	ac.w, ac.hasW, ac.reads = cur, true, ac.reads[:0]
+}
+
+// release: the current goroutine publishes its clock into a synchronisation object's clock.
+func (ex *Exec) release(into *vclock) {
+	s := ex.sched
+	if s == nil {
+		return
+	}
+	g := s.cur
+	if *into == nil {
+		*into = vclock{}
+	}
+	into.join(g.vc)
+	g.vc[g.id]++
+}
+
+// acquire: the current goroutine learns everything released into the object.
+func (ex *Exec) acquire(from vclock) {
+	s := ex.sched
+	if s == nil || from == nil {
+		return
+	}
+	s.cur.vc.join(from)
+}
 
 type Chan struct {
 	ID     int
@@ -30,6 +195,7 @@ type Chan struct {
 	recvWaiting int
 	elem   types.Type
 	timer  *timerObj
+	vc     vclock // race detection: join of the clocks of everything sent / closed on it
 }
 
 type sendWait struct {
@@ -45,6 +211,7 @@ type timerObj struct {
 	fired   bool
 	stopped bool
 	fn      Value // AfterFunc callback
+	vc      vclock // clock of the creator at creation
 }
 
 type goroutine struct {
@@ -56,6 +223,7 @@ type goroutine struct {
 	isMain bool
 	started bool
 	start  func()
+	vc     vclock
 }
 
 type killSignal struct{}
@@ -76,7 +244,7 @@ type scheduler struct {
 func (ex *Exec) scheduler() *scheduler {
 	if ex.sched == nil {
 		s := &scheduler{ex: ex, now: 1_000_000_000}
-		main := &goroutine{id: 0, name: "main", wake: make(chan bool), isMain: true, started: true}
+		main := &goroutine{id: 0, name: "main", wake: make(chan bool), isMain: true, started: true, vc: vclock{0: 1}}
 		s.gs = []*goroutine{main}
 		s.cur = main
 		ex.sched = s
@@ -159,8 +327,15 @@ func (s *scheduler) fireTimer(t *timerObj) {
 	t.fired = true
 	if t.ch != nil {
 		t.ch.buf = append(t.ch.buf, s.ex.timeValue(s.now))
+		if t.vc != nil {
+			if t.ch.vc == nil {
+				t.ch.vc = vclock{}
+			}
+			t.ch.vc.join(t.vc)
+		}
 	}
 	if t.fn != nil {
+		s.ex.spawnVC = t.vc
 		s.ex.spawn(t.fn, nil, "afterfunc")
 	}
 	s.ex.note("timer-fired")
@@ -250,6 +425,14 @@ func (ex *Exec) spawn(fn Value, args []Value, name string) *goroutine {
 	s := ex.scheduler()
 	s.nextID++
 	g := &goroutine{id: s.nextID, name: name, wake: make(chan bool)}
+	// the go statement happens before everything the new goroutine does
+	parent := s.cur.vc
+	if ex.spawnVC != nil {
+		parent, ex.spawnVC = ex.spawnVC, nil
+	}
+	g.vc = parent.clone()
+	g.vc[g.id] = 1
+	s.cur.vc[s.cur.id]++
 	g.start = func() {
 		defer func() {
 			r := recover()
@@ -386,8 +569,6 @@ func (s *scheduler) dispatchNoEnv(g *goroutine) {
 	}
 }
 
-func (ex *Exec) raceRead(a **access, fr *frame)  {}
-func (ex *Exec) raceWrite(a **access, fr *frame) {}
 
 func (ex *Exec) goStmt(fn Value, args []Value, in *ssa.Go, fr *frame) {
 	name := "go@" + fr.shortPos(in)
@@ -436,6 +617,7 @@ func (c *Chan) canSend() bool {
 }
 
 func (ex *Exec) doRecv(c *Chan) (Value, bool) {
+	ex.acquire(c.vc)
 	if len(c.buf) > 0 {
 		v := c.buf[0]
 		c.buf = c.buf[1:]
@@ -498,6 +680,7 @@ func (ex *Exec) chanSend(ch, v Value, fr *frame) {
 	if c.closed {
 		ex.goPanicf("send on closed channel")
 	}
+	ex.release(&c.vc)
 	if len(c.buf) < c.cap {
 		c.buf = append(c.buf, v)
 		return
@@ -526,6 +709,7 @@ func (ex *Exec) chanClose(ch Value, fr *frame) {
 	if c.closed {
 		ex.goPanicf("close of closed channel")
 	}
+	ex.release(&c.vc)
 	c.closed = true
 }
 
